@@ -766,6 +766,10 @@ func (fc *followerController) handleSnapshot(stream proto.OxiaLogReplication_Sen
 		return
 	}
 
+	// The database starts with notifications on: follow the options of the term, as the
+	// other paths that open it do, or this replica alone would store notification batches
+	newDb.EnableNotifications(fc.termOptions.NotificationsEnabled)
+
 	// The new term must be persisted, to avoid rolling it back
 	if err = newDb.UpdateTerm(fc.term, fc.termOptions); err != nil {
 		fc.closeStreamNoMutex(errors.Wrap(err, "Failed to update term in db"))
